@@ -98,5 +98,8 @@ def run(chk: Check) -> int:
 
 
 def replay(doc) -> int:
-    from ..core import Check as _C
-    return I.replay_failures(doc, [O.oracle_c19])
+    from ..core import Known
+
+    class _K:
+        known = Known()
+    return I.replay_failures(doc, [make_oracle(_K, {"literal_loss_differs_before_discard": 0})])
